@@ -15,7 +15,7 @@ from . import c16
 
 ID = "C10"
 RUNS = {"quick": 14_000, "thorough": 280_000}
-BUDGET_S = {"quick": 60, "thorough": 800}
+BUDGET_S = {"quick": 120, "thorough": 800}
 CHUNK = 120
 RULE = ("each run builds a trajectory from a generated (domain, problem, plan) with the single-agent or the multi-agent "
         "trajectory exporter (1-8 steps; repeated-argument fluents, zero-arity atoms, negative/fractional values, empty "
